@@ -3,7 +3,7 @@ set -e
 . $MC/par.sh
 H=$VERIF/harness/c02
 TT=0; [ "$TIER" = thorough ] && TT=1
-CF="-DTIER_THOROUGH=$TT -std=c++17 -O2 -g -fsanitize=address -fno-omit-frame-pointer -I$REPO -I$MC -I$H"
+CF="-DTIER_THOROUGH=$TT -std=c++17 -O2 -g1 -fsanitize=address -fno-omit-frame-pointer -I$REPO -I$MC -I$H"
 # std_portable.h: vector::erase(first,last) calls a three-argument igris::move that the header may not
 # provide (it then cannot be instantiated at all); probe, and leave the operation out if so.
 cat > $BUILD/probe.cpp <<'EOP'
@@ -11,13 +11,15 @@ cat > $BUILD/probe.cpp <<'EOP'
 void f(igris::vector<int> &v) { v.erase(v.begin(), v.begin()); }
 EOP
 if g++ -std=c++17 -fsyntax-only -I$REPO $BUILD/probe.cpp 2>/dev/null; then TW=1; else TW=0; fi
-par g++ -c $CF -Wno-return-local-addr $H/c02_main.cpp -o $BUILD/main.o
+par g++ -c $CF $H/c02_main.cpp -o $BUILD/main.o
+par g++ -c $CF $H/c02_main_large.cpp -o $BUILD/main_large.o
+par g++ -c $CF -Wno-return-local-addr $H/c02_main_flat.cpp -o $BUILD/main_flat.o
 par g++ -c $CF -DTWIN_HAS_ERASE_RANGE=$TW $H/c02_twin.cpp -o $BUILD/twin.o
 par g++ -c $CF -Wno-return-local-addr $H/c02_shim.cpp -o $BUILD/shim.o
 par g++ -c $CF -Wno-return-local-addr $H/c02_flatvec.cpp -o $BUILD/flatvec.o
 par g++ -std=c++17 -O2 -c -I$MC $MC/mc.cpp -o $BUILD/mc.o
 parwait
-par g++ -fsanitize=address $BUILD/main.o $BUILD/mc.o -o $BUILD/c02_main
+par g++ -fsanitize=address $BUILD/main.o $BUILD/main_large.o $BUILD/main_flat.o $BUILD/mc.o -o $BUILD/c02_main
 par g++ -fsanitize=address $BUILD/twin.o $BUILD/mc.o -o $BUILD/c02_twin
 par g++ -fsanitize=address $BUILD/shim.o $BUILD/mc.o -o $BUILD/c02_shim
 par g++ -fsanitize=address $BUILD/flatvec.o $BUILD/mc.o -o $BUILD/c02_flatvec
@@ -28,9 +30,11 @@ echo "vector_int $BUILD/c02_main --only vector_int"
 echo "vector_tracked $BUILD/c02_main --only vector_tracked"
 echo "vector_3values $BUILD/c02_main --only vector_3values"
 echo "flat $BUILD/c02_main --only flat_"
+echo "vector_large $BUILD/c02_main --only large_"
 echo "portable_vector_int $BUILD/c02_twin --only vector_int"
 echo "portable_vector_tracked $BUILD/c02_twin --only vector_tracked"
 echo "portable_vector_3values $BUILD/c02_twin --only vector_3values"
+echo "portable_vector_large $BUILD/c02_twin --only large_"
 echo "compat_shims $BUILD/c02_shim"
 echo "flat_on_igris_vector $BUILD/c02_flatvec"
 } > $BUILD/runs.txt
